@@ -557,7 +557,7 @@ func (r *refDynValue) getValue(
 	if err != nil {
 		// TODO(ph): Not everything is an Error, will do some cleanup in another PR.
 		if v, ok := previousErr.(Error); ok {
-			if v.Reason() == ErrCyclicReference {
+			if v.Reason() == ErrCyclicReference || v.Reason() == ErrExpectedObject {
 				return nil, previousErr
 			}
 		}
